@@ -578,13 +578,22 @@ def workload(tier, rng, shard, nshards, work):
                 i += rng.choice((1, 1, 2))
             if not any(e[2] not in ("", "sil") for e in ents):
                 continue
-            tg.addTier(make_tier("I", "words", ents, 0.0, dur), reportingMode="silence")
+            t0 = 0.0
+            if rng.random() < 0.12 and len(pts) >= 2 and pts[0] > 0:
+                # the annotation covers an excerpt of the recording on the recording's own time axis (the textgrid does not start at
+                # 0), and now and then one entry of the target tier covers all of it
+                t0, dur = pts[0], pts[-1]
+                if rng.random() < 0.6:
+                    ents = [(t0, dur, "w0")]
+                ents = [e for e in ents if e[1] <= dur]
+                REC.cls("C17:split:textgrid-starts-after-0" + (":one-entry-covers-it" if len(ents) == 1 and ents[0][:2] == (t0, dur) else ""))
+            tg.addTier(make_tier("I", "words", ents, t0, dur), reportingMode="silence")
             # secondary tiers: one with entries only in part of the recording (so some intervals have nothing under them), one point tier
-            half = dur * rng.choice([0.3, 0.5, 1.0])
-            sec = [(a, b, l) for a, b, l in gen.rand_interval_entries(rng, 6, half, labels=["p", "q"]) if b <= dur]
-            tg.addTier(make_tier("I", "phones", sec, 0.0, dur), reportingMode="silence")
+            half = (dur - t0) * rng.choice([0.3, 0.5, 1.0])
+            sec = [(a + t0, b + t0, l) for a, b, l in gen.rand_interval_entries(rng, 6, half, labels=["p", "q"]) if b + t0 <= dur]
+            tg.addTier(make_tier("I", "phones", sec, t0, dur), reportingMode="silence")
             if rng.random() < 0.6:
-                tg.addTier(make_tier("P", "marks", [(t, "m") for t in sorted({rng.uniform(0, half) for _ in range(rng.randrange(0, 4))})], 0.0, dur), reportingMode="silence")
+                tg.addTier(make_tier("P", "marks", [(t, "m") for t in sorted({t0 + rng.uniform(0, half) for _ in range(rng.randrange(0, 4))})], t0, dur), reportingMode="silence")
             tgfn = os.path.join(str(work), "rec.TextGrid")
             with core.paused():
                 tg.save(tgfn, rng.choice(("short_textgrid", "long_textgrid")), True, reportingMode="silence")
